@@ -472,36 +472,64 @@ GENERATORS = {
 # ---- generators used by C05 only (not part of the default pool, so C03/C04/C11 draw exactly as before) ----
 @st.composite
 def kw_msw(draw, m):
-    """turn a well with connections into a multisegment well: WELSEGS (top segment + 2..4 segments, optional side
-    branch) and a COMPSEGS entry for every connection it has"""
+    """turn a well with connections into a multisegment well: WELSEGS (top segment, a main branch and 0..3 laterals)
+    and a COMPSEGS entry for every connection it has.  Segment numbers are handed out in creation order while the main
+    branch and the laterals grow in turns, so that segment and branch numbering interleave (e.g. main branch 2,3,5,6 and
+    lateral 4 off segment 2): WellSegments then stores the segments in an order that differs from their numbers."""
     cands = [w for w in _wells(m) if not m.wells[w].get("msw")]
     w = draw(st.sampled_from(cands))
     W = m.wells[w]
-    nseg = draw(st.integers(2, 4))
-    side = draw(st.booleans())
+    nseg = draw(st.integers(2, 8))                   # segments besides the top segment (WSEGDIMS allows 12)
+    nlat = draw(st.integers(0, min(3, nseg - 1)))
     seglen = draw(st.sampled_from([10, 25.5, 40]))
     diam = draw(st.sampled_from([0.15, 0.2, 0.3]))
     rough = draw(st.sampled_from([0.0001, 0.00015, 0.001]))
     pdrop = draw(st.sampled_from(["HFA", "HF-", "H--"]))
     W["pdrop"] = pdrop
-    txt = "WELSEGS\n '%s' %s %s 1* 'INC' '%s' /\n" % (w, draw(st.sampled_from(["2000", "2001.5"])), draw(st.sampled_from(["0", "5"])), pdrop)
-    for s in range(2, nseg + 2):
-        txt += " %d %d 1 %d %s %s %s %s /\n" % (s, s, s - 1, fnum(seglen), fnum(seglen / 2), fnum(diam), fnum(rough))
-    last = nseg + 1
-    if side:
-        last += 1
-        txt += " %d %d 2 2 %s 1 %s %s /\n" % (last, last, fnum(seglen), fnum(diam), fnum(rough))
-    txt += "/\nCOMPSEGS\n '%s' /\n" % w
-    total = nseg * seglen
-    for c, (i, j, k) in enumerate(W["conns"]):
-        if side and c == len(W["conns"]) - 1 and len(W["conns"]) > 1:
-            txt += " %d %d %d 2 %s %s /\n" % (i, j, k, fnum(seglen + 1), fnum(seglen + 4))
+    ltop = draw(st.sampled_from([0, 5]))
+    txt = "WELSEGS\n '%s' %s %s 1* 'INC' '%s' /\n" % (w, draw(st.sampled_from(["2000", "2001.5"])), fnum(ltop), pdrop)
+    # grow the tree: branch 1 is the main branch; lateral b (branch b+1) hangs off a main-branch segment
+    tips = {1: 1}                  # branch -> its last segment
+    tlen = {1: float(ltop)}        # segment -> length from the top
+    branch_of = {1: 1}
+    started = 0
+    segs = []
+    for num in range(2, nseg + 2):
+        remaining = nseg + 2 - num
+        main_len = sum(1 for sg in segs if sg[1] == 1)
+        choices = []
+        if remaining > (nlat - started):
+            choices.append("main")                                   # room to extend the main branch
+            choices.extend("ext%d" % b for b in tips if b != 1)      # ... or an existing lateral
+        if started < nlat and main_len >= 1:
+            choices.append("new")
+        if not choices:
+            choices = ["main"]
+        what = draw(st.sampled_from(choices))
+        if what == "main":
+            br, outlet = 1, tips[1]
+        elif what == "new":
+            started += 1
+            br = started + 1
+            mains = [sg[0] for sg in segs if sg[1] == 1]
+            outlet = draw(st.sampled_from(mains))
         else:
-            a = (c * 7.0) % max(total - 4, 1)
-            txt += " %d %d %d 1 %s %s /\n" % (i, j, k, fnum(a), fnum(a + 3))
+            br = int(what[3:])
+            outlet = tips[br]
+        tips[br] = num
+        branch_of[num] = br
+        tlen[num] = tlen[outlet] + seglen
+        segs.append((num, br, outlet))
+        ddepth = seglen / 2 if br == 1 else 1
+        txt += " %d %d %d %d %s %s %s %s /\n" % (num, num, br, outlet, fnum(seglen), fnum(ddepth), fnum(diam), fnum(rough))
+    txt += "/\nCOMPSEGS\n '%s' /\n" % w
+    for c, (i, j, k) in enumerate(W["conns"]):
+        num, br, outlet = segs[c % len(segs)]
+        a = tlen[num] - seglen + 1 + (c // len(segs)) % 3
+        txt += " %d %d %d %d %s %s /\n" % (i, j, k, br, fnum(a), fnum(a + 3))
     txt += "/\n"
     W["msw"] = True
-    W["nseg"] = last
+    W["nseg"] = nseg + 1
     return txt
 
 
